@@ -57,6 +57,37 @@ def _sub_path(text, new, old):
         return text
     return re.sub(r'(?<![\w])' + re.escape(new) + r'(?![\w])', old.replace('\\', '\\\\'), text)
 
+def param_names(b):
+    """source names of the parameters of body json b, by position (None for patterns)"""
+    names = {}
+    for d in b.get('debug', []):
+        pl = d.get('place')
+        if pl and not pl[1] and 1 <= pl[0] <= b['arg_count'] and not d.get('inlined_from'):
+            names.setdefault(pl[0], d['name'])
+    return [names.get(i) for i in range(1, b['arg_count'] + 1)]
+
+def rename_params(j, notes):
+    """parameters keep their position and type but may be renamed: the reviewed names come back (rules name parameters)"""
+    A = audit()['functions']
+    for b in j['bodies']:
+        rec = A.get(b['path'])
+        if rec is None or b['kind'] == 'closure' or not rec.get('params') or norm_sig(signature(b)) != rec['sig']:
+            continue
+        want = rec['params']
+        if len(want) != b['arg_count']:
+            continue
+        cur = param_names(b)
+        # a parameter that now carries the reviewed name of ANOTHER position is a swap, not a rename: leave it to the rules
+        if any(c != w and c in want for c, w in zip(cur, want)):
+            continue
+        for d in b.get('debug', []):
+            pl = d.get('place')
+            if pl and not pl[1] and 1 <= pl[0] <= b['arg_count'] and not d.get('inlined_from'):
+                w = want[pl[0] - 1]
+                if w and d['name'] != w:
+                    notes['renamed'].append(['%s(%s)' % (b['path'], d['name']), '%s(%s)' % (b['path'], w)])
+                    d['name'] = w
+
 def rename_function(j, new, old):
     for b in j['bodies']:
         if b['path'] == new or b['path'].startswith(new + '::{closure'):
@@ -99,6 +130,12 @@ def _map_place(p, off):
     if p is None:
         return None
     lm = off if callable(off) else (lambda l: l + off)
+    sub = getattr(off, 'subst', None)
+    if sub and p[0] in sub and p[1] and p[1][0] == ['*']:
+        # `(*param)` of an inlined helper whose argument was `&[mut] place` of the caller IS that place
+        tgt = sub[p[0]]
+        rest = _map_place([p[0], p[1][1:]], off)[1]
+        return [tgt[0], copy.deepcopy(tgt[1]) + rest]
     proj = []
     for pr in p[1]:
         if pr and pr[0] == 'i' and len(pr) > 1 and isinstance(pr[1], int):
@@ -150,6 +187,64 @@ def _map_term(t, off, boff, ret_block):
         t['place'] = _map_place(t.get('place'), off)
     return t
 
+def _places_of(h):
+    """every place mentioned by body json h"""
+    def ops(o):
+        if isinstance(o, list) and o and o[0] in ('cp', 'mv'):
+            yield o[1]
+    for blk in h['blocks']:
+        for st in blk['stmts']:
+            if st.get('lhs'): yield st['lhs']
+            rv = st.get('rv') or {}
+            for k in ('op', 'a', 'b'):
+                if k in rv: yield from ops(rv[k])
+            if rv.get('place'): yield rv['place']
+            for x in rv.get('fields') or []: yield from ops(x)
+        t = blk['term']
+        if t['k'] == 'switch': yield from ops(t['op'])
+        elif t['k'] == 'call':
+            for a in t['args']: yield from ops(a)
+            if t.get('dest'): yield t['dest']
+            if isinstance(t['callee'].get('op'), list): yield from ops(t['callee']['op'])
+        elif t['k'] == 'assert':
+            if t.get('cond') is not None: yield from ops(t['cond'])
+            for o in t.get('ops', []): yield from ops(o)
+        elif t['k'] == 'drop' and t.get('place'):
+            yield t['place']
+
+def _forwardable_refs(f, h, args):
+    """parameters of helper h that are only ever dereferenced, and whose argument at this call is a temporary holding
+    `&[mut] place` of the caller: {param local: caller place}.  Inlining then reads and writes the caller's place directly,
+    as the code did before the helper was extracted."""
+    out = {}
+    for jx, a in enumerate(args[:h['arg_count']]):
+        if not (isinstance(a, list) and a and a[0] == 'mv' and not a[1][1]):
+            continue
+        def referent(t):
+            defs = [st for blk in f['blocks'] for st in blk['stmts'] if st.get('lhs') and st['lhs'][0] == t]
+            defs += [blk['term'] for blk in f['blocks'] if blk['term']['k'] == 'call' and blk['term'].get('dest') and blk['term']['dest'][0] == t]
+            if len(defs) != 1 or defs[0].get('k') != 'assign' or defs[0]['lhs'][1] or defs[0]['rv'].get('k') != 'ref':
+                return None
+            return defs[0]['rv']['place']
+        tgt = referent(a[1][0])
+        # reborrow chains: `_32 = &mut x; _31 = &mut (*_32); f(move _31)`
+        for _ in range(4):
+            if tgt is not None and tgt[1] and tgt[1][0] == ['*'] and tgt[0] < f['arg_count'] + 1:
+                break
+            if tgt is None or not (tgt[1] and tgt[1][0] == ['*']):
+                break
+            inner = referent(tgt[0])
+            if inner is None:
+                break
+            tgt = [inner[0], list(inner[1]) + list(tgt[1][1:])]
+        if tgt is None or any(pr and pr[0] == 'i' for pr in tgt[1]):
+            continue
+        p = 1 + jx
+        uses = [pl for pl in _places_of(h) if pl[0] == p or any(pr and pr[0] == 'i' and len(pr) > 1 and pr[1] == p for pr in pl[1])]
+        if uses and all(pl[0] == p and pl[1] and pl[1][0] == ['*'] for pl in uses):
+            out[p] = tgt
+    return out
+
 def inline_call(f, bi, h, tag):
     """replace the call that terminates block `bi` of body json `f` by the body json `h`"""
     call = f['blocks'][bi]['term']
@@ -161,8 +256,11 @@ def inline_call(f, bi, h, tag):
     # then reads `_0 = Ok(..)` in the caller again, exactly as before the extraction
     def off(l, base=base, direct=direct, d=(dest[0] if dest else None)):
         return d if (direct and l == 0) else base + l
+    if h['kind'] != 'closure':
+        off.subst = _forwardable_refs(f, h, call['args'])
     for d in h.get('debug', []):
-        f.setdefault('debug', []).append({'name': d['name'], 'place': _map_place(d['place'], off), 'arg': None, 'inlined_from': h['path']})
+        if not (getattr(off, 'subst', None) and d['place'] and d['place'][0] in off.subst and not d['place'][1]):
+            f.setdefault('debug', []).append({'name': d['name'], 'place': _map_place(d['place'], off), 'arg': None, 'inlined_from': h['path']})
     n = len(h['blocks'])
     pre = boff + n; ret = boff + n + 1
     for blk in h['blocks']:
@@ -283,6 +381,7 @@ def normalise(j, cfg_features):
             notes['renamed'].append([pick[0], m])
         else:
             notes['missing_reviewed'].append(m)
+    rename_params(j, notes)
     by = {b['path']: b for b in j['bodies']}
     fns = {p: b for p, b in by.items() if b['kind'] != 'closure'}
     new = sorted(p for p in fns if p not in A)
